@@ -28,6 +28,37 @@ def runs_for(prop, tier):
     }
     return table[prop]
 
+def model_stage(tier, seed, mc=True):
+    """Pipelines A + B for the core pipeline properties: exhaustive TLC run of the generative specification (intended
+    behaviour) and environment histories generated from it (bounded behaviours + sampled long behaviours)."""
+    from . import modelgen as G
+    import random
+
+    def gen(work):
+        res = {"ops_files": []}
+        if mc:
+            cfg = "MC_YK_intended.cfg" if tier == "quick" else "MC_YK_intended11.cfg"
+            r = G.model_check(work, cfg, workers=min(C.NCPU, 12))
+            if not r["ok"]:
+                raise C.Infra("the intended-behaviour model violates %s: specification error" % r["violated"])
+            res.update(states=r["distinct"], transitions=r["generated"], model_cfg=cfg)
+        depth = 5 if tier == "quick" else 6
+        ts, g, d = G.state_cover_tests(work, depth)
+        rnd = random.Random(seed)
+        rnd.shuffle(ts)
+        ts = ts[:1200 if tier == "quick" else 12000]
+        ss = G.simulated_tests(work, 250 if tier == "quick" else 4000, seed)
+        allt = ts + ss
+        n = 4 if tier == "quick" else 12
+        for i in range(n):
+            f = os.path.join(work, "gen-ops-%d.ndjson" % i)
+            G.write_ops(allt[i::n], f)
+            res["ops_files"].append(f)
+        res.update(tests_bounded=len(ts), tests_simulated=len(ss), test_depth=depth)
+        return res
+    return gen
+
+
 NEED = {   # vacuity guards: the run is not a verdict unless these step kinds occurred
     "C01": ["schedAlloc"], "C02": ["schedAlloc"], "C03": ["schedAlloc", "drains", "replConfirm"], "C04": ["schedAlloc", "confirm"],
     "C05": ["schedAlloc"], "C06": ["replDecided", "replConfirm", "phTimerFired"], "C07": ["preemptSteps"], "C08": ["preemptSteps"],
@@ -36,6 +67,7 @@ NEED = {   # vacuity guards: the run is not a verdict unless these step kinds oc
 
 # properties decided by their own pipeline module (vlib/<module>.py: main(prop, tier, seed, argv))
 OTHER = {"C18": "resarith", "C19": "sorting", "C20": "events", "C15": "confvalid", "C17": "placement"}
+MODEL_PROPS = {"C01", "C02", "C03", "C04", "C06", "C09", "C10"}   # properties the generative model speaks about
 CRASH_OWNERS = {"C08", "C13"}   # properties whose statement covers "the core process dies"
 LEVEL_TEXT = {}
 
@@ -57,7 +89,7 @@ def main(argv):
             return
         C.build()
         kf_all = C.known_findings()
-        res = T.run(prop, [prop + "_"], runs_for(prop, tier), tier, seed, kf_all, NEED[prop])
+        res = T.run(prop, [prop + "_"], runs_for(prop, tier), tier, seed, kf_all, NEED[prop], gen=model_stage(tier, seed) if prop in MODEL_PROPS else None)
         # a crash of the core process is a violation for the properties that speak about it, otherwise not a verdict
         crash_infra = None
         for msg, rp in res["crashes"]:
